@@ -189,26 +189,29 @@ type State struct {
 	stack     []*ssa.Function
 	Unwind    int
 	MaxForks  int
+	pcSet     map[int]bool
+	ForkSites map[string]int
+	MaxConc   int // most values a symbolic index/size is concretised to (default 4)
 
 	journalOn int
 	deferred  []*sym.Term // (side condition -> fact) learnt inside merge sides
 	journal   []jentry
 
-	Steps     int64
-	MaxSteps  int64
-	Events    []Event
-	Covers    map[string]int
-	Funcs     map[string]int
-	Vars      []*sym.Term
-	varNames  map[string]bool
-	Policy    int
-	Forks     int
-	Merges    int
-	MergeFail int
-	Dead      bool // path killed by Assume
-	Trace     bool
-	NoMerge   bool
-	concrete  map[string]uint64 // replay-in-engine: nondet values
+	Steps      int64
+	MaxSteps   int64
+	Events     []Event
+	Covers     map[string]int
+	Funcs      map[string]int
+	Vars       []*sym.Term
+	varNames   map[string]bool
+	Policy     int
+	Forks      int
+	Merges     int
+	MergeFail  int
+	Dead       bool // path killed by Assume
+	Trace      bool
+	NoMerge    bool
+	concrete   map[string]uint64 // replay-in-engine: nondet values
 	cur        *lazyG
 	lazy       []*lazyG
 	Asserts    int
@@ -519,6 +522,10 @@ func (st *State) decideRec(c *sym.Term, hasVal bool, val uint64) bool {
 	var take bool
 	if pos < len(st.prefix) {
 		take = st.prefix[pos].Take
+	} else if st.pcSet[c.ID] {
+		take = true
+	} else if st.pcSet[st.TS.Not(c).ID] {
+		take = false
 	} else {
 		tOK := st.feasible(c)
 		fOK := st.feasible(st.TS.Not(c))
@@ -528,6 +535,9 @@ func (st *State) decideRec(c *sym.Term, hasVal bool, val uint64) bool {
 			alt := append(append([]Dec(nil), st.decisions...), Dec{Take: false, HasVal: hasVal, Val: val})
 			st.Pending = append(st.Pending, alt)
 			st.Forks++
+			if st.ForkSites != nil && len(st.stack) > 0 {
+				st.ForkSites[st.stack[len(st.stack)-1].String()]++
+			}
 		case tOK:
 			take = true
 		case fOK:
@@ -552,7 +562,11 @@ func (st *State) concretize(i Int, what string) Int {
 	if i.T == nil {
 		return i
 	}
-	for n := 0; n < 64; n++ {
+	limit := st.MaxConc
+	if limit == 0 {
+		limit = 4
+	}
+	for n := 0; n < limit; n++ {
 		var cand uint64
 		pos := len(st.decisions)
 		if pos < len(st.prefix) && st.prefix[pos].HasVal {
@@ -576,13 +590,20 @@ func (st *State) concretize(i Int, what string) Int {
 			return mkInt(i.Bits, i.Signed, cand)
 		}
 	}
-	panic(errUnsupported("more than 64 feasible values for symbolic " + what))
+	panic(errUnsupported(fmt.Sprintf("more than %d feasible values for symbolic %s", limit, what)))
 }
 
 func (st *State) assume(c *sym.Term) {
 	if c.IsTrue() {
 		return
 	}
+	if st.pcSet == nil {
+		st.pcSet = map[int]bool{}
+	}
+	if st.pcSet[c.ID] {
+		return
+	}
+	st.pcSet[c.ID] = true
 	st.PC = append(st.PC, c)
 	st.Solver.Assert(c)
 }
